@@ -219,7 +219,8 @@ class IpAnonymizer(_BaseIpAnonymizer):
             ]
             # Make sure the prefixes are also preserved for preserved blocks, so
             # anonymized addresses outside the block don't accidentally collide
-            preserve_prefixes.extend(preserve_addresses)
+            # (build a new list: the caller's list of prefixes must not grow)
+            preserve_prefixes = list(preserve_prefixes) + list(preserve_addresses)
 
         # Preserve relevant prefixes
         for subnet_str in preserve_prefixes:
